@@ -18,6 +18,9 @@
 #include "EbDecNbr.h"
 #include "EbUtility.h"
 #include "EbDecCdef.h"
+#ifdef SVT_AV1_VERIF
+#include "EbVerifHooks.h"
+#endif
 
 /*Compute's whether 8x8 block is skip or not skip block*/
 static INLINE int32_t dec_is_8x8_block_skip(BlockModeInfo *mbmi) {
@@ -523,6 +526,9 @@ void svt_cdef_sb_row_mt(EbDecHandle *dec_handle, int32_t *mi_wide_l2, int32_t *m
             if (sb_fbc == pic_width_in_sb - 1)
                 nsync = 0;
             while (*cdef_completed_in_prev_row < (sb_fbc + nsync))
+#ifdef SVT_AV1_VERIF
+                SVT_VERIF_SPIN(cdef_completed_in_prev_row)
+#endif
                 ;
             //Sleep(5); /* ToDo : Change */
         }
@@ -584,6 +590,9 @@ void svt_cdef_sb_row_mt(EbDecHandle *dec_handle, int32_t *mi_wide_l2, int32_t *m
         }
         /* Update Top-Right Sync*/
         *cdef_completed_in_row = sb_fbc;
+#ifdef SVT_AV1_VERIF
+        SVT_VERIF_SYNC_STORE(cdef_completed_in_row);
+#endif
     }
 }
 
